@@ -210,6 +210,26 @@ def install(handler, g):
                     bad.append(f"{which}: {first!r} then {second!r} drew random integers below {calls}, expected {want}")
         return bool(bad), "; ".join(bad[:2]) or "each format uses its own number of random bits"
 
+    def replay_ste_same_object(rj):
+        """history: one format object used for one direction, then for the other"""
+        from unit_scaling.formats import FPFormat
+
+        bad = []
+        for first, second in (("quantise_fwd", "quantise_bwd"), ("quantise_bwd", "quantise_fwd")):
+            f = FPFormat(5, 2, "nearest")
+            x0 = torch.linspace(0.1, 3.0, 64, requires_grad=True)
+            getattr(f, first)(x0).backward(torch.linspace(0.2, 5.0, 64))
+            x = torch.linspace(0.13, 2.9, 64, requires_grad=True)
+            g = torch.linspace(0.21, 4.7, 64)
+            y = getattr(f, second)(x)
+            y.backward(g)
+            ref = FPFormat(5, 2, "nearest")
+            want_y = ref.quantise(x.detach()) if second == "quantise_fwd" else x.detach()
+            want_g = g if second == "quantise_fwd" else ref.quantise(g)
+            if not (torch.equal(y.detach(), want_y) and torch.equal(x.grad, want_g)):
+                bad.append(f"{first} then {second} on the same E5M2 object: output as specified={torch.equal(y.detach(), want_y)}, gradient as specified={torch.equal(x.grad, want_g)}")
+        return bool(bad), "; ".join(bad) or "both orders behave as specified"
+
     def replay_c17(rj):
         from unit_scaling.transforms.utils import _compose_backends
 
@@ -563,6 +583,7 @@ def install(handler, g):
     handler(lambda rj: rj["job"].startswith("c17:"))(replay_c17)
     handler(lambda rj: rj["job"].startswith("c18:"))(replay_c18)
     handler(lambda rj: rj["job"].startswith("c19:"))(replay_c19)
+    handler(lambda rj: rj["job"].startswith("c15:quantise_") and "after_other_direction" in rj["job"])(replay_ste_same_object)
     handler(lambda rj: rj["job"].startswith("c15:quantise_"))(replay_ste_cache)
     handler(lambda rj: rj["job"].startswith("c15:"))(replay_c15)
     handler(lambda rj: rj["job"].startswith("mod:") and ("Depth" in rj["job"] or "depth" in rj["obligation"]))(replay_depth)
